@@ -37,6 +37,7 @@ def _plan(draw, max_steps):
     items = []
     for i in range(n):
         it = {"_id": i, "k": draw(st.sampled_from([None, 0, 1]))}
+        it["kk"] = it["k"]                       # the same key under another name, for joins by (key_in_self, key_in_other)
         if draw(st.booleans()):
             it["p"] = draw(st.sampled_from([None, 1, "v"]))
         if draw(st.integers(0, 2)) == 0:
@@ -45,6 +46,7 @@ def _plan(draw, max_steps):
     items2 = []
     for i in range(draw(st.integers(0, 4))):
         it = {"_id": 500 + i, "k": draw(st.sampled_from([None, 0, 1]))}
+        it["kk"] = it["k"]
         if draw(st.integers(0, 5)) == 0:
             del it["k"]                            # ragged: this item lacks the key most operations use
         for extra in ("p", "q", "v"):
@@ -66,7 +68,8 @@ def _plan(draw, max_steps):
             op = draw(st.sampled_from(["deepcopy", "deepcopy", "full_join"]))
         steps.append({"op": op, "i": draw(st.integers(0, 30)), "j": draw(st.integers(0, 30)),
                       "a": draw(st.integers(0, 3))})
-    return {"items": items, "items2": items2, "steps": steps}
+    return {"items": items, "items2": items2, "steps": steps, "subclass": draw(st.integers(0, 3)) == 0,
+            "tuple_by": draw(st.integers(0, 2)) == 0}
 
 
 def strategy(tier):
@@ -140,16 +143,26 @@ def _has_k(lst):
     return all("k" in x for x in list.__iter__(lst))
 
 
+class Listings(di.ListOfDicts):
+    """A user-defined subclass: every derived list is built with self.__class__, so whole histories stay in it."""
+
+
 def check(plan, ctx):
-    root = di.ListOfDicts([dict(x) for x in plan["items"]])
-    root2 = di.ListOfDicts([dict(x) for x in plan.get("items2", [])])
+    cls = Listings if plan.get("subclass") else di.ListOfDicts
+    if plan.get("subclass"):
+        ctx.cls("lists_of_a_user_subclass")
+    _BY[0] = ("k", "kk") if plan.get("tuple_by") else "k"
+    if plan.get("tuple_by"):
+        ctx.cls("joins_by_key_name_pairs")
+    root = cls([dict(x) for x in plan["items"]])
+    root2 = cls([dict(x) for x in plan.get("items2", [])])
     pool = [Node(root, None, {0}, 0), Node(root2, None, {1}, 0)]
     next_origin = [2]
     fresh_id = [1000]
 
     def fresh_item():
         fresh_id[0] += 1
-        return {"_id": fresh_id[0], "k": fresh_id[0] % 2}
+        return {"_id": fresh_id[0], "k": fresh_id[0] % 2, "kk": fresh_id[0] % 2}
 
     forgotten = []
     for stepno, s in enumerate(plan["steps"]):
@@ -170,7 +183,8 @@ def check(plan, ctx):
         x, y = node.real, other.real
         needs_k = op in ("semi_join", "anti_join", "inner_join", "left_join", "full_join", "sort", "unique", "modify_if")
         may_raise = False
-        if needs_k and not (_has_k(x) and (_has_k(y) or "join" not in op)):
+        ykey = "kk" if (_BY[0] != "k" and "join" in op) else "k"
+        if needs_k and not (_has_k(x) and (all(ykey in it for it in list.__iter__(y)) or "join" not in op)):
             if op in SHARE:
                 may_raise = True                  # a KeyError is fine, but nothing may have been touched
             else:
@@ -283,6 +297,9 @@ def check(plan, ctx):
             ctx.cls("deepcopy")
 
 
+_BY = ["k"]
+
+
 def _apply(op, x, y, a, fresh_item):
     if op == "filter": return x.filter(lambda it: it.get("k") == (a % 2))
     if op == "sort": return x.sort(k=1 if a % 2 else -1)
@@ -293,8 +310,8 @@ def _apply(op, x, y, a, fresh_item):
     if op == "copy": return x.copy()
     if op == "reverse": return x.reverse()
     if op == "sample": return x.sample(a)
-    if op == "semi_join": return x.semi_join(y, "k")
-    if op == "anti_join": return x.anti_join(y, "k")
+    if op == "semi_join": return x.semi_join(y, _BY[0])
+    if op == "anti_join": return x.anti_join(y, _BY[0])
     if op == "append": return x.append(fresh_item())
     if op == "extend": return x.extend(y)
     if op == "insert": return x.insert(a, fresh_item())
@@ -304,7 +321,7 @@ def _apply(op, x, y, a, fresh_item):
     if op == "clear": return x.clear()
     if op == "group_by": return x.group_by("k")
     if op == "deepcopy": return x.deepcopy()
-    if op == "full_join": return x.full_join(y, "k")
+    if op == "full_join": return x.full_join(y, _BY[0])
     if op == "modify": return x.modify(v=lambda it: a)
     if op == "modify_nested":
         def touch(it):
@@ -317,12 +334,12 @@ def _apply(op, x, y, a, fresh_item):
         return x.modify(w=touch)
     if op == "modify_if": return x.modify_if(lambda it: it["k"] == a % 2, k=lambda it: 5 + a)
     if op == "rename": return x.rename(z="p") if a % 2 else x.rename(p="z")
-    if op == "select": return x.select("_id", "k", "p", "geo")
+    if op == "select": return x.select("_id", "k", "kk", "p", "geo")
     if op == "unselect": return x.unselect("p", "v")
     if op == "fill": return x.fill_missing_keys(p=a)
     if op == "fill_all": return x.fill_missing_keys()
-    if op == "inner_join": return x.inner_join(y, "k")
-    if op == "left_join": return x.left_join(y, "k")
+    if op == "inner_join": return x.inner_join(y, _BY[0])
+    if op == "left_join": return x.left_join(y, _BY[0])
     if op == "pluck": return x.pluck("_id")
     if op == "keys": return list(x.keys())
     if op == "to_json": return x.to_json()
